@@ -144,6 +144,31 @@ def capsule_arg_intents(lang, problems):
     return res
 
 
+def registry_key_code(problems):
+    """the expression Wrapc.compute_idtor uses as key of the destructor registry:
+    0 = the typemap's cxx_type (namespace-qualified C++ type), 1 = the bare node name, 9 = anything else"""
+    import ast
+    src = open(os.path.join(common.REPO, "shroud", "wrapc.py")).read()
+    tree = ast.parse(src)
+    for node in ast.walk(tree):
+        if isinstance(node, ast.FunctionDef) and node.name == "compute_idtor":
+            assigns = {}
+            for n in ast.walk(node):
+                if isinstance(n, ast.Assign) and len(n.targets) == 1 and isinstance(n.targets[0], ast.Name):
+                    assigns[n.targets[0].id] = ast.unparse(n.value)
+            for n in ast.walk(node):
+                if isinstance(n, ast.Call) and isinstance(n.func, ast.Attribute) and n.func.attr == "add_capsule_code" and n.args:
+                    key = ast.unparse(n.args[0])
+                    key = assigns.get(key, key)
+                    if key == "ntypemap.cxx_type" or key == "node.typemap.cxx_type":
+                        return 0
+                    if key in ("node.name", "ntypemap.name"):
+                        return 1
+                    return 9
+    problems.append("compute_idtor: no add_capsule_code call found")
+    return 9
+
+
 def rows_for(lang, problems):
     rows = []
     dealloc_flag = dealloc_capsule_registers()
@@ -236,7 +261,7 @@ def nat_list(s):
     return "[" + ", ".join(str(ord(c)) for c in s) + "]"
 
 
-def render(rows, capargs):
+def render(rows, capargs, keycode=0):
     L = ["/- GENERATED by tools/extract_capsule.py from the /repo working tree.  Do not edit. -/",
          "namespace Shroud.Gen.Capsule", "",
          "/-- one effective statement block that allocates, frees or hands over memory:",
@@ -269,6 +294,8 @@ def render(rows, capargs):
           "/-- (block name, intent code) of every Fortran `type(<capsule>)` argument: 0 OUT, 1 INOUT, 2 IN, 3 none -/",
           "def capsuleArgIntents : List (List Nat × Nat) := [",
           ",\n".join("  (%s, %d)" % (nat_list(n), c) for n, c in capargs), "]", "",
+          "/-- key of the destructor registry in Wrapc.compute_idtor: 0 qualified C++ type, 1 bare class name, 9 other -/",
+          "def registryKeyCode : Nat := %d" % keycode, "",
           "end Shroud.Gen.Capsule", ""]
     return "\n".join(L)
 
@@ -293,7 +320,10 @@ def regenerate():
     capargs = capsule_arg_intents("c", problems) + capsule_arg_intents("cxx", problems)
     if problems:
         raise Unclassified("\n".join(problems[:20]))
-    text = render(rows, capargs)
+    keycode = registry_key_code(problems)
+    if problems:
+        raise Unclassified("\n".join(problems[:20]))
+    text = render(rows, capargs, keycode)
     changed = write_if_changed(GEN, text)
     return {"capsule_args": len(capargs), "rows": len(rows), "allocating": sum(1 for r in rows if r["allocs"]), "changed": changed,
             "row_list": rows}
